@@ -66,6 +66,8 @@ inline std::unique_ptr<cctz::ZoneInfoSource> Factory(
     std::string id = name.substr(2);
     size_t h = id.find('#');
     if (h != std::string::npos) id = id.substr(0, h);
+    h = id.find('\0');   // a name with an embedded NUL is a different name for the same bytes
+    if (h != std::string::npos) id = id.substr(0, h);
     auto it = Table().find(id);
     if (it == Table().end()) return nullptr;
     return std::unique_ptr<cctz::ZoneInfoSource>(new MemSource(it->second));
